@@ -78,6 +78,8 @@ def make_model(seed: int, i: int, estimation: bool, force_kind=None) -> dict:
     # --- roles -----------------------------------------------------------
     vars_ = VAR_POOL[:]
     r.shuffle(vars_)
+    # never run dry: further columns get systematic names (met first by pop())
+    vars_ = [f'{r.choice(["col", "X", "z_"])}{k}' for k in range(30, 0, -1)] + vars_
     data = {}
     terms = {a: [] for a in alts}
     pending = names[:]
